@@ -147,6 +147,9 @@ func NewCacheEntryWithKey(msg *dns.Msg, ttl time.Duration, rateLimit int, key ui
 	msgCopy.Question = msg.Question
 	msgCopy.Answer = msg.Answer
 	msgCopy.Ns = msg.Ns
+	// An OPT an upstream put into the answer or authority section is hop
+	// metadata all the same, and the byte path would replay it verbatim.
+	dnsutil.ClearStrayOPT(msgCopy)
 
 	var ede *dns.EDNS0_EDE
 
